@@ -209,7 +209,11 @@ def _atom(c, core, zn, zlo, depth, k):
     core_s = z3.simplify(core)
     guard = [k >= zlo, k < zn]
     for a in c.sigma_atoms:
-        if a.depth != depth or not a.extent.eq(zn) or not a.lo.eq(zlo):
+        if a.depth != depth:
+            continue
+        if not (a.extent.eq(zn) or _prove_eq(c, a.extent, zn, [], timeout=1000)):
+            continue
+        if not (a.lo.eq(zlo) or _prove_eq(c, a.lo, zlo, [], timeout=1000)):
             continue
         if a.bound != tuple(x.get_id() for x in c.bound_stack):
             continue
